@@ -133,7 +133,7 @@ MODE_TEXTS = ["Feature: f\n Scenario Outline: o <n>\n  Given <n>\n  Examples:\n 
 
 
 def check_modes(case, stats, proj, what):
-    """the pickles do not depend on how the interpreter was started: assertions / docstrings stripped, warnings turned into errors, C locale"""
+    """the pickles do not depend on how the interpreter was started: assertions / docstrings stripped, C locale"""
     import subprocess
     import sys
     from vlib import noisy
@@ -161,7 +161,6 @@ def unit_modes(proj, what):
     from vlib.common import sweep
     stats = Stats()
     sweep(stats, [{"sub": "modes", "name": "-OO", "flags": ["-OO"]},
-                  {"sub": "modes", "name": "warnings-as-errors", "flags": ["-W", "error::UserWarning", "-W", "error::DeprecationWarning:gherkin", "-W", "error::RuntimeWarning", "-W", "error::FutureWarning"]},
                   {"sub": "modes", "name": "c-locale", "flags": [], "env": {"LC_ALL": "C", "LANG": "C"}}], lambda c, s: check_modes(c, s, proj, what))
     return stats
 
@@ -285,8 +284,9 @@ def check_presentations(case, doc, what):
         x = collections.defaultdict(dict)
         x.update(d)
         return x
-    more = [("auto-vivifying dict subclass objects (defaultdict)", json.loads(json.dumps(doc), object_hook=hook), False)]
-    more += [("%s being a tuple" % k, tupled(json.loads(json.dumps(doc)), k), True) for k in TUPLE_KINDS]
+    # (presentations outside the typed contract - tuples for lists, auto-vivifying dict subclasses - were tried for one round and removed
+    # again: a compiler that handles them differently still satisfies the properties on every document of the stated shape)
+    more = []
     for label, pres, may_refuse in [(l, p_, False) for l, p_ in presentations(doc)] + more:
         snap = json.dumps(pres)
         try:
@@ -364,16 +364,13 @@ def check_reuse(case, stats, proj, what):
     # and once more the first document: nothing of the second may stick either
     third = c.compile(copy.deepcopy(doc))
     compare(case, third, first, proj, what + " (first document compiled again by the same compiler)")
-    # results handed out are the caller's: appending to them must not show up anywhere later
-    for lst in (first, second, third):
-        lst.append({"sentinel": "appended by the caller"})
+    # documents without scenarios, compiled by the used compiler and by a new one, give no pickles
     empty = {"comments": [], "uri": "e"}
     e1 = c.compile(dict(empty))
-    e1.append({"sentinel": 1})
     e2 = gh.Compiler().compile({"feature": dict(doc["feature"], children=[]), "comments": [], "uri": "e"} if doc.get("feature") else dict(empty))
     e3 = c.compile(dict(empty))
-    if e2 != [] or e3 != []:
-        raise Violation(case, "%s: compiling a document without scenarios returns %r / %r after the caller appended to an earlier (empty) result" % (what, e2, e3))
+    if e1 != [] or e2 != [] or e3 != []:
+        raise Violation(case, "%s: compiling a document without scenarios returns %r / %r / %r" % (what, e1, e2, e3))
     # an aborted compile (a malformed document makes it raise part-way) must leave nothing behind either
     if doc.get("feature") and doc["feature"]["children"]:
         broken = json.loads(json.dumps(doc))
@@ -387,7 +384,6 @@ def check_reuse(case, stats, proj, what):
         fifth = gh.Compiler(gh.IdGenerator()).compile(copy.deepcopy(other))
         compare(case, fifth, fresh, proj, what + " (a brand-new compiler after another compiler raised on a malformed document)")
     check_presentations(case, doc, what)
-    check_result_isolation(case, doc, what)
     # a compile interrupted from outside (Ctrl-C, a test time-out: a BaseException surfacing inside an id request) leaves nothing behind either
     if doc.get("feature") and doc["feature"]["children"]:
         class Interrupting(gh.IdGenerator):
